@@ -3,27 +3,33 @@
 
   ONLY property theorems and non-vacuity examples live here; helper lemmas are in
   CometProofs/HNSW*.lean, the model and the statement vocabulary (`Op`, `run`, `liveSpec`,
-  `Reachable`, `entryLive`, `residentsLe`, …) in Comet/Vector/HNSW.lean.
+  `Reachable`, `validPicks`, `residentsLe`, `complete0B`, …) in Comet/Vector/HNSW.lean.
 
-  The three clauses of the property, at FULL strength, are the `def … : Prop` below
-  (`NonEmptyFull`, `SmallExactFull`, `ReachableFull`).  The unchanged code violates all
-  three; each violation is PROVED from a concrete witness on the integer line
-  (`toy`: distance |a − b|) that is also replayed against the real code on every run
-  (corpus/C12):
-      hnsw_entry_removed_empty      ¬ NonEmptyFull     known finding D2
-      hnsw_small_exact_false        ¬ SmallExactFull   known finding D2
-      hnsw_clusters_disconnect      ¬ ReachableFull    known finding D3
-      hnsw_removal_disconnects      ¬ Reachable, no pruning, entry live   known finding D21
-      hnsw_old_order_no_inlinks     the statement order before fix fb5d06f loses every in-link (D1, fixed)
-  What holds is proved by induction over arbitrary histories under explicit decidable
-  hypotheses:
-      hnsw_nonempty_partial         every history, size and ef; hypothesis `entryLive` (= ¬ trigger of D2)
-      hnsw_small_exact_partial      `smallRegime`: entryLive, never more than n ≤ min (2M+1) efC vertices; ef ≥ n
-      hnsw_reachable_small          same regime
-  plus the graph-search theorems searchLayer_spec_{sound,complete,total} and the verified
-  checker reachSet_correct.  The partial theorems speak about COMPLETED model runs / searches
-  (`run … = .ok s`, `searchSingle … = .ok (.ok res)`): that no fault (nil lookup, fuel) occurs
-  is proved for searchLayer (searchLayer_spec_total) but not for the greedy descent.
+  The model is the code AFTER the fixes fb5d06f (D1: register before linking), f6a780e
+  (D2: searchLayer walks through soft-deleted vertices, never reports them; ef clamped to
+  ≥ 1) and f98dc7f (D2: Add purges the tombstones first when the entry point is
+  soft-deleted).  Consequences proved here, by induction over arbitrary histories:
+      hnsw_nonempty_partial      EVERY history, size, ef: a completed unrestricted search is
+                                 non-empty whenever some live vertex is reachable from the entry
+                                 point along bottom-layer edges of stored vertices (no `entryLive`
+                                 hypothesis any more); hnsw_nonempty_entry_live is the special case
+      hnsw_nonempty_small        in the small regime: unconditionally (a live vertex exists)
+      hnsw_small_exact_partial   `smallRegime`: never more than n ≤ min (2M+1) efC vertices; ef ≥ n
+      hnsw_reachable_small       same regime
+      hnsw_small_exact_ever      clause 2 in the reading "at most 2M vectors EVER": holds
+  plus searchLayer_spec_{sound,full_or_all,complete,nonempty,total} and reachSet_correct.
+  Still FALSE at full strength (negations proved from witnesses that are replayed against
+  the real code on every run, corpus/C12):
+      hnsw_nonempty_false             ¬ NonEmptyFull               known finding D3
+      hnsw_clusters_disconnect        ¬ ReachableFull              known finding D3
+      hnsw_small_exact_since_flush_false  ¬ SmallExactSinceFlushFull   known finding D21
+      hnsw_removal_disconnects        ¬ Reachable after Flush, no pruning   known finding D21
+  Why the repaired defects were defects (model variants):
+      hnsw_entry_removed_empty        searchLayer BEFORE f6a780e answers [] after the entry point is removed
+      hnsw_old_order_no_inlinks       the statement order BEFORE fb5d06f loses every in-link
+  The partial theorems speak about COMPLETED model runs / searches (`run … = .ok s`,
+  `searchSingle … = .ok (.ok res)`): that no fault (nil lookup, fuel) occurs is proved for
+  searchLayer (searchLayer_spec_total) but not for the greedy descent / insertNode.
 -/
 import CometProofs.HNSWWeak
 import CometProofs.HNSWFuel
@@ -47,109 +53,141 @@ theorem reachSet_correct (succ : Id → List Id) (fuel : Nat) (e : Id) (r : List
     | refl => exact h4 e (by simp)
     | step _ hw ih => exact h2 _ ih _ hw
 
-/-! ## searchLayer (the graph search shared by insertion and query) -/
+/-! ## searchLayer (the graph search shared by insertion and query), code since f6a780e -/
 
 /-- **searchLayer_spec, soundness.** Whatever `searchLayer` returns are distinct, resident,
-    non-deleted vertices that are reachable from the given entry point through non-deleted
-    vertices of that layer (`liveSuccAt`), each carrying its distance to the query. -/
+    NON-deleted vertices reachable from the given start vertex along the edges of that layer
+    (through any stored vertices, soft-deleted ones included), each with its distance. -/
 theorem searchLayer_spec_sound (m : Metric V S) (s : State V) (q : V) (ep : Id) (ef layer : Nat)
     (res : List (Hit S)) (h : searchLayer m s q ep ef layer = .ok res) :
-    (∀ r ∈ res, Reach (liveSuccAt s layer) ep r.id ∧ isDeleted s r.id = false ∧
+    (∀ r ∈ res, Reach (nbrsAt s layer) ep r.id ∧ isDeleted s r.id = false ∧
       ∃ n, s.nodes.get? r.id = some n ∧ r.score = m.dist q n.vec) ∧
     (res.map (·.id)).Nodup :=
   searchLayer_sound m s q ef layer ep res h
 
-/-- **searchLayer_spec, completeness.** If `ef` is at least the number of vertices reachable
-    from a non-deleted entry point through non-deleted vertices of the layer (`U`: any list
-    that covers them), ALL of them are returned: the early exit, the admission test and the
-    eviction never lose one. -/
+/-- **searchLayer_spec, the dichotomy.** The answer has at least `max ef 1` hits, or it
+    contains EVERY non-deleted vertex reachable from the start vertex. -/
+theorem searchLayer_spec_full_or_all (m : Metric V S) (s : State V) (q : V) (ep : Id) (ef layer : Nat)
+    (res : List (Hit S)) (h : searchLayer m s q ep ef layer = .ok res) :
+    Nat.max ef 1 ≤ res.length ∨
+    ∀ v, Reach (nbrsAt s layer) ep v → isDeleted s v = false → v ∈ res.map (·.id) :=
+  searchLayer_full_or_all m s q ef layer ep res h
+
+/-- **searchLayer_spec, completeness.** If `ef` is at least the number of non-deleted
+    vertices reachable from the start vertex (`U`: any list that covers them), ALL of them
+    are returned: the early exit, the admission test and the eviction never lose one. -/
 theorem searchLayer_spec_complete (m : Metric V S) (s : State V) (q : V) (ep : Id) (ef layer : Nat)
-    (U : List Id) (hU : ∀ v, Reach (liveSuccAt s layer) ep v → v ∈ U) (hlen : U.length ≤ ef)
-    (hep : isDeleted s ep = false) (res : List (Hit S))
+    (U : List Id) (hU : ∀ v, Reach (nbrsAt s layer) ep v → isDeleted s v = false → v ∈ U)
+    (hlen : U.length ≤ ef) (res : List (Hit S))
     (h : searchLayer m s q ep ef layer = .ok res) :
-    ∀ v, Reach (liveSuccAt s layer) ep v → v ∈ res.map (·.id) :=
-  searchLayer_complete m s q ef layer ep U hU hlen hep res h
+    ∀ v, Reach (nbrsAt s layer) ep v → isDeleted s v = false → v ∈ res.map (·.id) :=
+  searchLayer_complete m s q ef layer ep U hU hlen res h
+
+/-- **searchLayer_spec, non-emptiness.** If some non-deleted vertex is reachable from the
+    start vertex (which may itself be soft-deleted), the answer is not empty, for every `ef`. -/
+theorem searchLayer_spec_nonempty (m : Metric V S) (s : State V) (q : V) (ep : Id) (ef layer : Nat)
+    (res : List (Hit S)) (h : searchLayer m s q ep ef layer = .ok res)
+    (v : Id) (hv : Reach (nbrsAt s layer) ep v) (hvd : isDeleted s v = false) : res ≠ [] :=
+  searchLayer_ne m s q ef layer ep res h v hv hvd
 
 /-- **searchLayer_spec, fuel lemma.** If the neighbour lists of the layer point to resident
-    vertices and the entry vertex is resident (or soft-deleted), `searchLayer` completes:
-    `|nodes| + 1` rounds suffice, no nil lookup and no access to an empty heap happens. -/
+    vertices and the start vertex is resident, `searchLayer` completes: `|nodes| + 1` rounds
+    suffice, no nil lookup and no access to an empty heap happens. -/
 theorem searchLayer_spec_total (m : Metric V S) (s : State V) (q : V) (ep : Id) (ef layer : Nat)
     (hres : ∀ j w, w ∈ nbrsAt s layer j → s.nodes.contains w = true)
-    (hep : isDeleted s ep = true ∨ s.nodes.contains ep = true) :
+    (hep : s.nodes.contains ep = true) :
     ∃ res, searchLayer m s q ep ef layer = .ok res :=
   searchLayer_total m s q ef layer ep hres hep
 
-/-- a soft-deleted entry point yields nothing at all (the mechanism of D2) -/
-theorem searchLayer_deleted_entry (m : Metric V S) (s : State V) (q : V) (ep : Id) (ef layer : Nat)
-    (hep : isDeleted s ep = true) : searchLayer m s q ep ef layer = .ok [] := by
-  simp [searchLayer, hep]
+/-! ## the three clauses on one state (decidable hypotheses; `complete0B` is what the
+    correspondence run checks on the exported graph of every case in the small regime) -/
 
-/-! ## what holds: the three clauses on a state whose entry point is live and whose
-    bottom layer is complete on the live vertices (decidable hypotheses `liveB`,
-    `complete0B`; the correspondence run checks `complete0B` on the exported graph of
-    every case that stays in the regime "entry point never soft-deleted, never more than
-    2M+1 vertices, efConstruction never below the size") -/
-
-/-- Clause 1 on a state (hypothesis: the entry point is resident and not soft-deleted):
-    every completed unrestricted search is non-empty, for every `k ∈ ℤ` and every `ef`. -/
+/-- Clause 1 on a state: entry point resident and some live vertex reachable from it along
+    bottom-layer edges ⇒ every completed unrestricted search is non-empty (`k ∈ ℤ`, any `ef`). -/
 theorem hnsw_nonempty_state (m : Metric V S) (ord : m.sc.Ordered) (s : State V)
-    (hentry : liveB s s.entry = true) (hml : s.maxLevel ≠ -1)
+    (hentry : s.nodes.contains s.entry = true) (hml : s.maxLevel ≠ -1)
+    (v : Id) (hv : liveB s v = true) (hreach : Reach (nbrsAt s 0) s.entry v)
     (q q' : V) (k ef : Int) (hq : m.dimOf q = s.dim) (hpre : m.pre q = some q')
     (res : List (Hit S)) (h : searchSingle m s q k m.sc.zero [] ef = .ok (.ok res)) :
     res ≠ [] :=
-  search_nonempty_state m ord s (liveB_iff.1 hentry) hml q q' k ef hq hpre res h
+  search_nonempty_state m ord s hentry hml v (liveB_iff.1 hv) hreach q q' k ef hq hpre res h
 
-/-- Clause 2 on a state: entry point live, layer 0 complete on the live vertices, `ef` at
-    least their number ⇒ every completed search (any `k ∈ ℤ`, threshold, id restriction)
-    is an exact top-k of the live vertices, scored by the metric. -/
+/-- Clause 2 on a state: layer 0 complete on the live vertices, the entry point (live or
+    soft-deleted) linked to all of them, `ef` at least their number ⇒ every completed search
+    (any `k ∈ ℤ`, threshold, id restriction) is an exact top-k of the live vertices. -/
 theorem hnsw_small_exact_state (m : Metric V S) (ord : m.sc.Ordered) (s : State V)
-    (hcomp : complete0B s = true) (hentry : liveB s s.entry = true) (hml : s.maxLevel ≠ -1)
+    (hcomp : complete0B s = true) (hentry : s.nodes.contains s.entry = true) (hml : s.maxLevel ≠ -1)
     (q q' : V) (k : Int) (thr : S) (F : List Id) (ef : Int)
     (hq : m.dimOf q = s.dim) (hpre : m.pre q = some q')
     (hef : (liveIds s).length ≤ efUsed s ef) (res : List (Hit S))
     (h : searchSingle m s q k thr F ef = .ok (.ok res)) :
     IsTopK m.sc.le k (Flat.cands m (stateLive s) q' thr F) res :=
-  search_exact_state m ord s (complete0B_spec hcomp).1 (complete0B_spec hcomp).2
-    (liveB_iff.1 hentry) hml q q' k thr F ef hq hpre hef res h
+  search_exact_state m ord s (complete0B_spec hcomp hentry).1 (complete0B_spec hcomp hentry).2.1
+    (complete0B_spec hcomp hentry).2.2 hml q q' k thr F ef hq hpre hef res h
 
-/-- Clause 3 on a state: entry point live and layer 0 complete ⇒ every live vertex is
-    reachable from the entry point through live vertices of the bottom layer. -/
+/-- Clause 3 on a state. -/
 theorem hnsw_reachable_state (s : State V)
-    (hcomp : complete0B s = true) (hentry : liveB s s.entry = true) : Reachable s :=
-  reachable_state s (complete0B_spec hcomp).1 (liveB_iff.1 hentry)
+    (hcomp : complete0B s = true) (hentry : s.nodes.contains s.entry = true) : Reachable s :=
+  reachable_state s (complete0B_spec hcomp hentry).2.2
 
 /-! ## what holds along histories (the `…_partial` theorems): induction over ANY history of
     Add / Remove / Flush, any levels, any flush picks that Go's map order allows -/
 
-/-- **Clause 1, partial — every history, every size, every ef.**  Hypothesis `entryLive`: the
-    entry point is not soft-deleted at any add nor when the search runs (its negation is the
-    trigger of D2 — so this is exactly the part of clause 1 that the code has).  Whenever a
-    live vertex exists, every completed unrestricted search returns at least one hit. -/
+/-- **Clause 1, partial — every history, every size, every ef.**  Whenever some live vertex
+    is reachable from the entry point along bottom-layer edges of stored vertices (soft-deleted
+    ones included), every completed unrestricted search returns at least one hit.  The
+    reachability hypothesis is what remains hypothetical: D3 (pruning) and D21 (Flush without
+    reconnection) can make every live vertex unreachable (hnsw_nonempty_false). -/
 theorem hnsw_nonempty_partial (m : Metric V S) (ord : m.sc.Ordered)
     (dim M efC efS : Nat) (ops : List (Op V)) (s : State V)
     (hfresh : freshAdds ops = true) (hpicks : validPicks m (HNSW.init dim M efC efS) ops = true)
-    (hentry : entryLive m (HNSW.init dim M efC efS) ops = true)
-    (hrun : run m (HNSW.init dim M efC efS) ops = .ok s) (hlive : liveIds s ≠ [])
+    (hrun : run m (HNSW.init dim M efC efS) ops = .ok s)
+    (v : Id) (hv : liveB s v = true) (hreach : Reach (nbrsAt s 0) s.entry v)
     (q q' : V) (k ef : Int) (hq : m.dimOf q = dim) (hpre : m.pre q = some q')
     (res : List (Hit S)) (h : searchSingle m s q k m.sc.zero [] ef = .ok (.ok res)) :
     res ≠ [] := by
   simp only [freshAdds, Bool.and_eq_true] at hfresh
-  obtain ⟨hw, hdim, hent⟩ := run_winv m ops (HNSW.init dim M efC efS) s (init_winv dim M efC efS)
-    (fun i _ => by simp [HNSW.init, IdMap.contains]) ((nodupB_iff _).1 hfresh.2) hpicks hentry hrun
-  obtain ⟨j, hj⟩ := List.exists_mem_of_ne_nil _ hlive
-  have hcnt : s.nodes.count ≠ 0 := count_ne_zero_of_live (mem_liveIds.1 hj)
+  obtain ⟨hw, hdim⟩ := run_winv m ops (HNSW.init dim M efC efS) s (init_winv dim M efC efS)
+    (fun i _ => by simp [HNSW.init, IdMap.contains]) ((nodupB_iff _).1 hfresh.2) hpicks hrun
+  have hvl := liveB_iff.1 hv
+  have hcnt : s.nodes.count ≠ 0 := count_ne_zero_of_live hvl
   have hml : s.maxLevel ≠ -1 := by have := hw.ml hcnt; omega
-  exact search_nonempty_state m ord s ⟨hw.entry_res hcnt, hent⟩ hml q q' k ef
+  exact search_nonempty_state m ord s (hw.entry_res hcnt) hml v hvl hreach q q' k ef
     (by rw [hdim]; exact hq) hpre res h
 
+/-- special case: the entry point itself is live (it always is right after an Add or a
+    Flush: f98dc7f) — then nothing else is needed, for every history, size and ef. -/
+theorem hnsw_nonempty_entry_live (m : Metric V S) (ord : m.sc.Ordered)
+    (dim M efC efS : Nat) (ops : List (Op V)) (s : State V)
+    (hfresh : freshAdds ops = true) (hpicks : validPicks m (HNSW.init dim M efC efS) ops = true)
+    (hrun : run m (HNSW.init dim M efC efS) ops = .ok s)
+    (hentry : liveB s s.entry = true)
+    (q q' : V) (k ef : Int) (hq : m.dimOf q = dim) (hpre : m.pre q = some q')
+    (res : List (Hit S)) (h : searchSingle m s q k m.sc.zero [] ef = .ok (.ok res)) :
+    res ≠ [] :=
+  hnsw_nonempty_partial m ord dim M efC efS ops s hfresh hpicks hrun s.entry hentry Reach.refl
+    q q' k ef hq hpre res h
+
+/-- **Clause 1 in the small regime: unconditional.**  While the index never holds more than
+    `n ≤ min (2M+1) efConstruction` vertices, every completed unrestricted search is non-empty
+    as soon as a live vertex exists — whichever vertices were removed (the entry point
+    included), flushed or not, for every `ef`. -/
+theorem hnsw_nonempty_small (m : Metric V S) (ord : m.sc.Ordered)
+    (dim M efC efS n : Nat) (ops : List (Op V)) (s : State V)
+    (hreg : smallRegime m dim M efC efS n ops = true)
+    (hrun : run m (HNSW.init dim M efC efS) ops = .ok s) (hlive : liveIds s ≠ [])
+    (q q' : V) (k ef : Int) (hq : m.dimOf q = dim) (hpre : m.pre q = some q')
+    (res : List (Hit S)) (h : searchSingle m s q k m.sc.zero [] ef = .ok (.ok res)) : res ≠ [] :=
+  regime_nonempty m ord dim M efC efS n ops s hreg hrun hlive q q' k ef hq hpre res h
+
 /-- **Clause 2, partial.**  Regime (`smallRegime`, decidable on the history): fresh non-zero
-    ids, allowed flush picks, `entryLive`, and the index never holds more than
+    ids, allowed flush picks, and the index never holds more than
     `n ≤ min (2M+1) efConstruction` vertices (the bound the code gives: pruning starts at the
     `2M+2`-nd resident vertex; the property asks for `2M`).  Then every completed search with
     `ef ≥ n` — any `k ∈ ℤ`, threshold, id restriction — is an exact top-k of the flat
-    specification's live list.  Invariant behind it (`Inv`, CometProofs/HNSWInv.lean): layer 0
-    is the complete digraph on the live vertices; preserved by insertNode (no list overflows,
-    `searchLayer` returns every live vertex), Remove and Flush (with re-election). -/
+    specification's live list; no hypothesis on the entry point is needed any more.
+    Invariant (`Inv`, CometProofs/HNSWInv.lean): layer 0 is the complete digraph on the live
+    vertices and the entry point, live or tombstoned, has an edge to every other live vertex. -/
 theorem hnsw_small_exact_partial (m : Metric V S) (ord : m.sc.Ordered)
     (dim M efC efS n : Nat) (ops : List (Op V)) (s : State V)
     (hreg : smallRegime m dim M efC efS n ops = true)
@@ -161,7 +199,7 @@ theorem hnsw_small_exact_partial (m : Metric V S) (ord : m.sc.Ordered)
   regime_exact m ord dim M efC efS n ops s hreg hrun q q' k thr F ef hq hpre hef res h
 
 /-- **Clause 3, partial.**  In the same regime every live vertex is reachable from the
-    entry point through live vertices of the bottom layer. -/
+    entry point along bottom-layer edges. -/
 theorem hnsw_reachable_small (m : Metric V S) (dim M efC efS n : Nat) (ops : List (Op V)) (s : State V)
     (hreg : smallRegime m dim M efC efS n ops = true)
     (hrun : run m (HNSW.init dim M efC efS) ops = .ok s) : Reachable s :=
@@ -174,10 +212,10 @@ theorem hnsw_small_live_eq_spec (m : Metric V S) (dim M efC efS n : Nat) (ops : 
     (hreg : smallRegime m dim M efC efS n ops = true)
     (hrun : run m (HNSW.init dim M efC efS) ops = .ok s) :
     (stateLive s).Perm (liveSpec m dim ops) ∧ Complete0 s :=
-  ⟨(regime_facts m dim M efC efS n ops s hreg hrun).2.2.2.2.2.2.2,
+  ⟨(regime_facts m dim M efC efS n ops s hreg hrun).2.2.2.2.2.2,
    (regime_facts m dim M efC efS n ops s hreg hrun).1.comp⟩
 
-/-! ## the full statements (kept visible; the first and third are FALSE for the code) -/
+/-! ## the full statements -/
 
 /-- the quantifier of the property: `M ≥ 2`, `efConstruction, efSearch ≥ M` -/
 structure Params where
@@ -191,95 +229,107 @@ structure Params where
 
 def Params.init (p : Params) : State V := HNSW.init p.dim p.M p.efC p.efS
 
-/-- Clause 1, full strength: while a live vector exists, an unrestricted search is
-    never empty — any history, whichever vectors were removed, flushed or not. -/
+/-- Clause 1, full strength: while a live vector exists, a (completed) unrestricted search
+    is never empty — any history, whichever vectors were removed, flushed or not.  FALSE. -/
 def NonEmptyFull (m : Metric V S) : Prop :=
   ∀ (p : Params) (ops : List (Op V)) (s : State V),
     freshAdds ops = true → validPicks m p.init ops = true → run m p.init ops = .ok s →
     liveSpec m p.dim ops ≠ [] →
     ∀ (q : V) (k ef : Int), m.dimOf q = p.dim → (m.pre q).isSome = true →
-      ∃ res, searchSingle m s q k m.sc.zero [] ef = .ok (.ok res) ∧ res ≠ []
+      ∀ res, searchSingle m s q k m.sc.zero [] ef = .ok (.ok res) → res ≠ []
 
-/-- Clause 2, full strength: while the index has held at most `2M` vectors and both
-    ef parameters are at least that number, answers are exact k-NN of the live set,
-    under any history. (Stated with "ever" instead of "since it was last empty or
-    flushed": already this weaker claim is false.) -/
-def SmallExactFull (m : Metric V S) : Prop :=
+/-- Clause 2, reading "at most `2M` vectors EVER held": TRUE (hnsw_small_exact_ever). -/
+def SmallExactEver (m : Metric V S) : Prop :=
   ∀ (p : Params) (ops : List (Op V)) (s : State V) (n : Nat),
     freshAdds ops = true → validPicks m p.init ops = true → run m p.init ops = .ok s →
     n ≤ 2 * p.M → residentsLe m n p.init ops = true → n ≤ p.efC → n ≤ p.efS →
     ∀ (q q' : V) (k : Int) (thr : S) (F : List Id), m.dimOf q = p.dim → m.pre q = some q' →
-      ∃ res, searchSingle m s q k thr F 0 = .ok (.ok res) ∧
+      ∀ res, searchSingle m s q k thr F 0 = .ok (.ok res) →
         IsTopK m.sc.le k (Flat.cands m (liveSpec m p.dim ops) q' thr F) res
 
+/-- Clause 2 as the property words it — at most `2M` vectors "since it was last empty or
+    flushed": the bound only has to hold after the last `flush`.  FALSE. -/
+def SmallExactSinceFlushFull (m : Metric V S) : Prop :=
+  ∀ (p : Params) (pre suf : List (Op V)) (e : Id) (s1 s : State V) (n : Nat),
+    freshAdds (pre ++ [.flush e] ++ suf) = true →
+    validPicks m p.init (pre ++ [.flush e] ++ suf) = true →
+    run m p.init (pre ++ [.flush e]) = .ok s1 → run m s1 suf = .ok s →
+    n ≤ 2 * p.M → residentsLe m n s1 suf = true → n ≤ p.efC → n ≤ p.efS →
+    ∀ (q q' : V) (k : Int) (thr : S) (F : List Id), m.dimOf q = p.dim → m.pre q = some q' →
+      ∀ res, searchSingle m s q k thr F 0 = .ok (.ok res) →
+        IsTopK m.sc.le k (Flat.cands m (liveSpec m p.dim (pre ++ [.flush e] ++ suf)) q' thr F) res
+
 /-- Clause 3, full strength: every live vertex stays reachable from the entry point
-    through the bottom layer. -/
+    through the bottom layer.  FALSE. -/
 def ReachableFull (m : Metric V S) : Prop :=
   ∀ (p : Params) (ops : List (Op V)) (s : State V),
     freshAdds ops = true → validPicks m p.init ops = true → run m p.init ops = .ok s →
     Reachable s
 
+/-- Clause 2 holds at full strength in the reading "at most 2M vectors ever" (completed
+    searches; every ordered metric). -/
+theorem hnsw_small_exact_ever (m : Metric V S) (ord : m.sc.Ordered) : SmallExactEver m := by
+  intro p ops s n hf hv hrun hn hr hc hs q q' k thr F hq hpre res h
+  have hreg : smallRegime m p.dim p.M p.efC p.efS n ops = true := by
+    simp only [smallRegime, Bool.and_eq_true, decide_eq_true_eq]
+    exact ⟨⟨⟨⟨hf, hv⟩, hr⟩, by omega⟩, hc⟩
+  have hefS : s.efS = p.efS := (regime_facts m p.dim p.M p.efC p.efS n ops s hreg hrun).2.2.2.1
+  exact regime_exact m ord p.dim p.M p.efC p.efS n ops s hreg hrun q q' k thr F 0 hq hpre
+    (by simp [efUsed, hefS]; exact hs) res h
+
 /-! ## proved negations (each witness is replayed on the real code: corpus/C12) -/
 
-def pD2 : Params := ⟨1, 2, 10, 10, by decide, by decide, by decide⟩
-/-- points 0, 1, 2; then the first inserted vertex — the entry point — is removed -/
-def opsD2 : List (Op Int) := [.add 1 0 0, .add 2 1 0, .add 3 2 0, .remove 1]
+def answerIs (r : Except Fault (Except Err (List (Hit Nat)))) (l : List (Hit Nat)) : Bool :=
+  match r with | .ok (.ok x) => decide (x = l) | _ => false
 
-def emptyAnswer (r : Except Fault (Except Err (List (Hit Nat)))) : Bool :=
-  match r with | .ok (.ok []) => true | _ => false
+theorem eq_of_answerIs {r : Except Fault (Except Err (List (Hit Nat)))} {l : List (Hit Nat)}
+    (h : answerIs r l = true) : r = .ok (.ok l) := by
+  unfold answerIs at h
+  split at h
+  · simp only [decide_eq_true_eq] at h; subst h; rfl
+  · cases h
 
-/-- D2: after removing the entry point every search is empty although two vectors are live. -/
-theorem hnsw_entry_removed_empty : ¬ NonEmptyFull toy := by
+def pD3 : Params := ⟨1, 2, 10, 10, by decide, by decide, by decide⟩
+/-- five points 0..4 (complete layer-0 graph, every list full at 2M = 4), then the far
+    point 100: all four neighbours prune the link back to it -/
+def opsD3 : List (Op Int) :=
+  [.add 1 0 0, .add 2 1 0, .add 3 2 0, .add 4 3 0, .add 5 4 0, .add 6 100 0]
+/-- … then the five reachable vertices are removed -/
+def opsD3N : List (Op Int) := opsD3 ++ [.remove 1, .remove 2, .remove 3, .remove 4, .remove 5]
+
+/-- D3 also refutes clause 1: vertex 6 is live but has no in-link, so after the five
+    reachable vertices are removed every search is empty (entry point tombstoned, nothing
+    live reachable) — although searchLayer now walks through tombstones. -/
+theorem hnsw_nonempty_false : ¬ NonEmptyFull toy := by
   intro h
-  cases hr : run toy pD2.init opsD2 with
+  cases hr : run toy pD3.init opsD3N with
   | error e =>
-    have : (match run toy pD2.init opsD2 with | .ok _ => true | .error _ => false) = true := by
+    have : (match run toy pD3.init opsD3N with | .ok _ => true | .error _ => false) = true := by
       decide +kernel
     rw [hr] at this; cases this
   | ok s =>
-    obtain ⟨res, h1, h2⟩ := h pD2 opsD2 s (by decide +kernel) (by decide +kernel) hr
-      (by decide +kernel) (1 : Int) 2 0 rfl rfl
-    have key : (match run toy pD2.init opsD2 with
-        | .ok s => emptyAnswer (searchSingle toy s 1 2 toy.sc.zero [] 0) | .error _ => false) = true := by
+    have key : (match run toy pD3.init opsD3N with
+        | .ok s => answerIs (searchSingle toy s 100 1 toy.sc.zero [] 0) [] | .error _ => false) = true := by
       decide +kernel
     rw [hr] at key
-    simp only at key
-    rw [h1] at key
-    cases res with
-    | nil => exact h2 rfl
-    | cons a t => simp [emptyAnswer] at key
-
-/-- D2 also refutes the exactness clause (3 ≤ 2M = 4 vertices ever, ef = 10). -/
-theorem hnsw_small_exact_false : ¬ SmallExactFull toy := by
-  intro h
-  cases hr : run toy pD2.init opsD2 with
-  | error e =>
-    have : (match run toy pD2.init opsD2 with | .ok _ => true | .error _ => false) = true := by
-      decide +kernel
-    rw [hr] at this; cases this
-  | ok s =>
-    obtain ⟨res, h1, h2⟩ := h pD2 opsD2 s 3 (by decide +kernel) (by decide +kernel) hr
-      (by decide) (by decide +kernel) (by decide) (by decide) (1 : Int) 1 2 0 [] rfl rfl
-    have key : (match run toy pD2.init opsD2 with
-        | .ok s => emptyAnswer (searchSingle toy s 1 2 0 [] 0) | .error _ => false) = true := by
-      decide +kernel
-    rw [hr] at key
-    simp only at key
-    rw [h1] at key
-    have hlen := h2.len
-    cases res with
-    | nil =>
-      have : sanitizeK 2 (Flat.cands toy (liveSpec toy pD2.dim opsD2) 1 0 []).length = 2 := by
-        decide +kernel
-      rw [this] at hlen; cases hlen
-    | cons a t => simp [emptyAnswer] at key
+    exact h pD3 opsD3N s (by decide +kernel) (by decide +kernel) hr (by decide +kernel)
+      (100 : Int) 1 0 rfl rfl [] (eq_of_answerIs key) rfl
 
 /-- `¬ Reachable` from the verified checker: a live vertex outside `reachSet`. -/
 def unreachableB (r : Except Fault (State Int)) (v : Id) : Bool :=
   match r with
   | .ok s =>
-    (match reachSet (liveSucc s) 64 s.entry with
+    (match reachSet (nbrsAt s 0) 64 s.entry with
      | some rs => !rs.contains v && (liveIds s).contains v
+     | none => false)
+  | .error _ => false
+
+/-- `Reachable` from the verified checker: every live vertex inside `reachSet`. -/
+def reachableB (r : Except Fault (State Int)) : Bool :=
+  match r with
+  | .ok s =>
+    (match reachSet (nbrsAt s 0) 64 s.entry with
+     | some rs => (liveIds s).all fun v => rs.contains v
      | none => false)
   | .error _ => false
 
@@ -293,14 +343,20 @@ theorem not_reachable_of_unreachableB (p : Params) (ops : List (Op Int)) (v : Id
   · next rs hrs =>
     simp only [Bool.and_eq_true, Bool.not_eq_true', List.contains_eq_mem, decide_eq_false_iff_not,
       decide_eq_true_eq] at h
-    exact h.1 ((reachSet_correct _ _ _ _ hrs v).2 (hreach v h.2).2)
+    exact h.1 ((reachSet_correct _ _ _ _ hrs v).2 (hreach v h.2))
   · cases h
 
-def pD3 : Params := ⟨1, 2, 10, 10, by decide, by decide, by decide⟩
-/-- five points 0..4 (complete layer-0 graph, every list full at 2M = 4), then the far
-    point 100: all four neighbours prune the link back to it -/
-def opsD3 : List (Op Int) :=
-  [.add 1 0 0, .add 2 1 0, .add 3 2 0, .add 4 3 0, .add 5 4 0, .add 6 100 0]
+theorem reachable_of_reachableB (p : Params) (ops : List (Op Int))
+    (h : reachableB (run toy p.init ops) = true) :
+    ∀ s, run toy p.init ops = .ok s → Reachable s := by
+  intro s hr v hv
+  rw [hr] at h
+  simp only [reachableB] at h
+  split at h
+  · next rs hrs =>
+    simp only [List.all_eq_true, List.contains_eq_mem, decide_eq_true_eq] at h
+    exact (reachSet_correct _ _ _ _ hrs v).1 (h v hv)
+  · cases h
 
 /-- D3: nearest-M pruning leaves the last vertex without any in-link: unreachable,
     although nothing was removed, the entry point is live and ef (10) exceeds the index. -/
@@ -321,17 +377,60 @@ def pD21 : Params := ⟨1, 2, 2, 2, by decide, by decide, by decide⟩
 def opsD21 : List (Op Int) :=
   [.add 1 0 0, .add 2 1 0, .add 3 2 0, .add 4 3 0, .remove 2, .remove 3, .flush 1]
 
-/-- D21: with at most 2M vertices ever (no pruning) and a live entry point, removing
-    cut vertices disconnects a live vertex — before and after `Flush`. -/
+/-- D21: with at most 2M vertices ever (no pruning), removing cut vertices is harmless while
+    they are only tombstoned (they are walked through since f6a780e) but `Flush` drops their
+    edges without reconnecting: a live vertex is unreachable afterwards. -/
 theorem hnsw_removal_disconnects :
-    (∀ s, run toy pD21.init opsD21.dropLast = .ok s → ¬ Reachable s) ∧
+    (∀ s, run toy pD21.init opsD21.dropLast = .ok s → Reachable s) ∧
     (∀ s, run toy pD21.init opsD21 = .ok s → ¬ Reachable s) ∧
-    entryLive toy pD21.init opsD21 = true ∧ residentsLe toy (2 * pD21.M) pD21.init opsD21 = true :=
-  ⟨not_reachable_of_unreachableB pD21 opsD21.dropLast 4 (by decide +kernel),
+    residentsLe toy (2 * pD21.M) pD21.init opsD21 = true :=
+  ⟨reachable_of_reachableB pD21 opsD21.dropLast (by decide +kernel),
    not_reachable_of_unreachableB pD21 opsD21 4 (by decide +kernel),
-   by decide +kernel, by decide +kernel⟩
+   by decide +kernel⟩
 
-/-! ### the repaired defect D1 (statement order of `HNSWIndex.Add` before fix fb5d06f) -/
+/-- D21 refutes clause 2 as the property words it: after the flush the index holds 2 ≤ 2M
+    vertices, efConstruction = efSearch = 2, and the search for the point 3 (id 4, distance 0)
+    answers id 1 (distance 3). -/
+theorem hnsw_small_exact_since_flush_false : ¬ SmallExactSinceFlushFull toy := by
+  intro h
+  have hops : opsD21.dropLast ++ [Op.flush 1] ++ [] = opsD21 := rfl
+  have hops' : opsD21.dropLast ++ [Op.flush 1] = opsD21 := rfl
+  cases hr : run toy pD21.init opsD21 with
+  | error e =>
+    have : (match run toy pD21.init opsD21 with | .ok _ => true | .error _ => false) = true := by
+      decide +kernel
+    rw [hr] at this; cases this
+  | ok s =>
+    have key : (match run toy pD21.init opsD21 with
+        | .ok s => answerIs (searchSingle toy s 3 1 0 [] 0) [⟨1, 3⟩] && decide (s.nodes.count ≤ 2)
+        | .error _ => false) = true := by
+      decide +kernel
+    rw [hr] at key
+    simp only [Bool.and_eq_true, decide_eq_true_eq] at key
+    have := h pD21 opsD21.dropLast [] 1 s s 2 (by rw [hops]; decide +kernel)
+      (by rw [hops]; decide +kernel) (by rw [hops']; exact hr) rfl (by decide)
+      (by simp [residentsLe, along, key.2]) (by decide) (by decide)
+      (3 : Int) 3 1 0 [] rfl rfl [⟨1, 3⟩] (eq_of_answerIs key.1)
+    rw [hops] at this
+    exact absurd (checkTopK_complete _ _ _ _ this) (by decide +kernel)
+
+/-! ### why the repaired defects were defects (model variants) -/
+
+/-- points 0, 1, 2; then the first inserted vertex — the entry point — is removed -/
+def opsD2 : List (Op Int) := [.add 1 0 0, .add 2 1 0, .add 3 2 0, .remove 1]
+
+def layerIds (r : Except Fault (List (Hit Nat))) : Option (List Id) :=
+  match r with | .ok l => some (l.map (·.id)) | .error _ => none
+
+/-- D2 (fixed by f6a780e + f98dc7f): after removing the entry point, `searchLayer` as it was
+    BEFORE the fix returns nothing from the entry point although two vertices are live; the
+    current `searchLayer` walks through the tombstone and returns both. -/
+theorem hnsw_entry_removed_empty :
+    (match run toy pD3.init opsD2 with
+     | .ok s => (layerIds (searchLayerOld toy s 1 s.entry 10 0), layerIds (searchLayer toy s 1 s.entry 10 0),
+                 liveIds s)
+     | .error _ => (none, none, [])) = (some [], some [2, 3], [2, 3]) := by
+  decide +kernel
 
 def runAddsWith (rf : Bool) (s : State Int) : List (Id × Int × Nat) → Except Fault (State Int)
   | [] => .ok s
@@ -349,51 +448,55 @@ def inDegree0 (r : Except Fault (State Int)) (v : Id) : Option Nat :=
 
 def linePts : List (Id × Int × Nat) := [(1,0,0),(2,1,0),(3,2,0),(4,3,0),(5,4,0),(6,5,0)]
 
-/-- D1 (fixed): M = 2, six points on a line.  With `insertNode` BEFORE `nodes[id] = node`
-    the sixth vertex ends with no in-link at all (every neighbour pruned the unknown id);
-    with the statements in the order the code has now it keeps in-links. -/
+/-- D1 (fixed by fb5d06f): M = 2, six points on a line.  With `insertNode` BEFORE
+    `nodes[id] = node` the sixth vertex ends with no in-link at all (every neighbour pruned the
+    unknown id); with the statements in the order the code has now it keeps in-links. -/
 theorem hnsw_old_order_no_inlinks :
     inDegree0 (runAddsWith false (HNSW.init 1 2 10 10) linePts) 6 = some 0 ∧
     inDegree0 (runAddsWith true (HNSW.init 1 2 10 10) linePts) 6 = some 2 ∧
     registerFirst = true := by
   refine ⟨by decide +kernel, by decide +kernel, rfl⟩
 
-/-! ### non-vacuity of the witnesses: they are inside the property's quantifier -/
+/-! ### non-vacuity -/
 
-example : freshAdds opsD2 = true ∧ validPicks toy pD2.init opsD2 = true ∧
-    liveSpec toy 1 opsD2 = [(2, 1), (3, 2)] := by decide +kernel
+-- the witnesses are inside the property's quantifier
+example : freshAdds opsD3N = true ∧ validPicks toy pD3.init opsD3N = true ∧
+    liveSpec toy 1 opsD3N = [(6, 100)] := by decide +kernel
 example : freshAdds opsD21 = true ∧ validPicks toy pD21.init opsD21 = true ∧
     liveSpec toy 1 opsD21 = [(1, 0), (4, 3)] := by decide +kernel
 
-/-! ### non-vacuity of the partial theorems: a history with removals, a flush and levels > 0
-    whose final state satisfies every hypothesis -/
-
+/-- a history with levels > 0, removal of the ENTRY POINT, an Add that therefore purges the
+    tombstones first (pick 3: the live vertex on maxLevel), another removal, a flush -/
 def opsOK : List (Op Int) :=
-  [.add 1 0 1, .add 2 10 0, .add 3 20 2, .add 4 30 0, .remove 2, .add 5 40 1, .flush 1, .add 6 25 0]
+  [.add 1 0 1, .add 2 10 0, .add 3 20 2, .add 4 30 0, .remove 1, .add 5 40 1 3, .remove 2,
+   .flush 3, .add 6 25 0]
 
-def stOK : State Int := match run toy pD2.init opsOK with | .ok s => s | .error _ => pD2.init
+def stOK : State Int := match run toy pD3.init opsOK with | .ok s => s | .error _ => pD3.init
 
-example : complete0B stOK = true ∧ liveB stOK stOK.entry = true ∧ stOK.maxLevel = 2 ∧
-    liveIds stOK = [1, 3, 4, 5, 6] ∧ validPicks toy pD2.init opsOK = true ∧ freshAdds opsOK = true := by
-  decide +kernel
--- the hypotheses of all three partial theorems hold of it:
-example : Reachable stOK := hnsw_reachable_state stOK (by decide +kernel) (by decide +kernel)
-example : ∀ res, searchSingle toy stOK 24 2 0 [] 0 = .ok (.ok res) →
-    IsTopK toy.sc.le 2 (Flat.cands toy (stateLive stOK) 24 0 []) res :=
-  fun res h => hnsw_small_exact_state toy toy_ordered stOK (by decide +kernel) (by decide +kernel)
-    (by decide +kernel) 24 24 2 0 [] 0 (by decide +kernel) rfl (by decide +kernel) res h
--- the same history satisfies the regime of the history-level theorems with n = 5 = 2M+1:
 example : smallRegime toy 1 2 10 10 5 opsOK = true := by decide +kernel
-example : Reachable stOK := by
-  have hr : run toy (HNSW.init 1 2 10 10) opsOK = .ok stOK := by
-    have : (match run toy (HNSW.init 1 2 10 10) opsOK with | .ok _ => true | .error _ => false) = true := by
-      decide +kernel
-    simp only [stOK, pD2, Params.init]
-    split <;> simp_all
-  exact hnsw_reachable_small toy 1 2 10 10 5 opsOK stOK (by decide +kernel) hr
-example : liveSpec toy 1 opsOK = [(1, 0), (3, 20), (4, 30), (5, 40), (6, 25)] := by decide +kernel
+example : complete0B stOK = true ∧ stOK.entry = 3 ∧ stOK.maxLevel = 2 ∧
+    liveIds stOK = [3, 4, 5, 6] ∧ liveSpec toy 1 opsOK = [(3, 20), (4, 30), (5, 40), (6, 25)] := by
+  decide +kernel
+theorem stOK_run : run toy (HNSW.init 1 2 10 10) opsOK = .ok stOK := by
+  have : (match run toy (HNSW.init 1 2 10 10) opsOK with | .ok _ => true | .error _ => false) = true := by
+    decide +kernel
+  simp only [stOK, pD3, Params.init]
+  split <;> simp_all
+-- all hypotheses of the history-level theorems are met by it:
+example : Reachable stOK := hnsw_reachable_small toy 1 2 10 10 5 opsOK stOK (by decide +kernel) stOK_run
+example : ∀ res, searchSingle toy stOK 24 2 0 [] 0 = .ok (.ok res) →
+    IsTopK toy.sc.le 2 (Flat.cands toy (liveSpec toy 1 opsOK) 24 0 []) res :=
+  fun res h => hnsw_small_exact_partial toy toy_ordered 1 2 10 10 5 opsOK stOK (by decide +kernel)
+    stOK_run 24 24 2 0 [] 0 rfl rfl (by decide +kernel) res h
 -- … and the search does complete, with the two nearest live points 25 (id 6) and 20 (id 3):
 example : (match searchSingle toy stOK 24 2 0 [] 0 with
     | .ok (.ok r) => r.map (fun (h : Hit Nat) => (h.id, h.score)) | _ => []) = [(6, 1), (3, 4)] := by decide +kernel
+-- the state right after the entry point was removed: still exact, reachable, non-empty
+def stDead : State Int :=
+  match run toy pD3.init (opsOK.take 5) with | .ok s => s | .error _ => pD3.init
+example : isDeleted stDead stDead.entry = true ∧ complete0B stDead = true ∧
+    (match searchSingle toy stDead 1 1 0 [] 0 with
+     | .ok (.ok r) => r.map (fun (h : Hit Nat) => (h.id, h.score)) | _ => []) = [(2, 9)] := by
+  decide +kernel
 
 end Comet.HNSW
